@@ -147,6 +147,51 @@ def own_code(cg, out_func, f):
 XROOTS = {}
 
 
+def _flag_range(W, fl):
+    """(bits set on every path, bits set on some path) of a local flags variable that is given constants and has
+    constants or-ed in; None when it is modified in any other way"""
+    from engine.dataflow import def_exprs
+    d = decl_of(fl)
+    if d is None or d.get('kind') != 'var' or d.get('staticStorage'):
+        return None
+    bases = []
+    for x in def_exprs(W, d['id']):
+        sx = strip(x)
+        if sx is None or sx.get('v') is None:
+            # flags = flags | CONST
+            if sx is not None and sx.k == 'BinaryOperator' and sx.get('op') == '|':
+                a_, b_ = strip(sx.ch[0]), strip(sx.ch[1])
+                if (decl_of(a_) or {}).get('id') == d['id'] and b_.get('v') is not None:
+                    bases.append(('or', b_['v']))
+                    continue
+                if (decl_of(b_) or {}).get('id') == d['id'] and a_.get('v') is not None:
+                    bases.append(('or', a_['v']))
+                    continue
+            return None
+        bases.append(('set', sx['v']))
+    for n in W.body.walk():
+        if n.k == 'CompoundAssignOperator' and (decl_of(n.ch[0]) or {}).get('id') == d['id'] and strip(n.ch[0]).k == 'DeclRefExpr':
+            if n.get('op') == '|=' and strip(n.ch[1]).get('v') is not None:
+                bases.append(('or', strip(n.ch[1])['v']))
+            else:
+                return None
+        if n.k == 'UnaryOperator' and n.get('op') in ('&', '++', '--') and (decl_of(n.ch[0]) or {}).get('id') == d['id'] and \
+                strip(n.ch[0]).k == 'DeclRefExpr':
+            return None
+    sets = [v for k_, v in bases if k_ == 'set']
+    ors = [v for k_, v in bases if k_ == 'or']
+    if not sets:
+        return None
+    vmin = sets[0]
+    vmax = 0
+    for v in sets:
+        vmin &= v
+        vmax |= v
+    for v in ors:
+        vmax |= v
+    return vmin, vmax
+
+
 def check_writer(ctx, W, opens, named=True):
     chk = ctx.chk
     msg_ids = {p['id'] for p in W.params[:1]}  # first parameter is the log message
@@ -172,8 +217,15 @@ def check_writer(ctx, W, opens, named=True):
             fl = strip(arg(o, 1 if n == 'open' else 2)) if n != 'creat' else None
             v = fl.get('v') if fl is not None else None
             O_EXCL, O_NONBLOCK = 0o200, 0o4000
-            ok = v is not None and bool(v & O_APPEND) and not (v & O_TRUNC) and bool(v & (O_WRONLY | O_RDWR)) and \
-                (not named or (not (v & O_EXCL) and not (v & O_NONBLOCK)))
+            vmin = vmax = v
+            if v is None and fl is not None:
+                # a flags variable: a constant, with further constants or-ed in on some paths (O_NOFOLLOW when asked for).
+                # What must be set has to be in the start value, what must not be set in none of the pieces.
+                rng = _flag_range(W, fl)
+                if rng is not None:
+                    vmin, vmax = rng
+            ok = vmin is not None and bool(vmin & O_APPEND) and not (vmax & O_TRUNC) and bool(vmin & (O_WRONLY | O_RDWR)) and \
+                (not named or (not (vmax & O_EXCL) and not (vmax & O_NONBLOCK)))
             chk.ob('W1', 'append-mode[%s]' % W.name, ok, o.where(), W.name,
                    '%s: flags %s lack O_APPEND or include O_TRUNC (concurrent writers overwrite each other / existing '
                    'content is lost), O_EXCL (the open fails when the file exists: of two first writers one loses its '
